@@ -176,3 +176,45 @@ def k15(res, tier, seed, tag="k15"):
         res.broke("correspondence-error", "K15", e)
     for i in fails[:5]:
         res.broke("correspondence", "K15 " + meta[i]["func"], meta[i])
+
+def k15_relative(res, tier, seed, tag="k15r"):
+    """K15 (relative variant): hand model sdm_relative vs the real apply_on_window, rational location-scale family as
+    distribution, zero-inflated dyadic samples; the ValueError for a series without wet values is compared as None."""
+    logging.getLogger("ibicus").setLevel(logging.CRITICAL); logging.getLogger("ibicus").disabled = True
+    import ibicus.debias as D
+    r = C.rng_for(seed, tag)
+    n = 25 if tier == "quick" else 250
+    cc = C.CoqCases(tag, ["QL", "Dist", "Ecdf", "RatLS", "SDM", "CorrBase"], per_file=40)
+    meta = []
+    rat = ratls_model()
+    with warnings.catch_warnings():
+        warnings.simplefilter("ignore")
+        for i in range(n):
+            no, nh, nf = r.randint(3, 12), r.randint(3, 12), r.randint(2, 12)
+            dry = r.choice([0.0, 0.3, 0.6])
+            def mk(k):
+                # wet values are distinct (np.argsort is not stable); dry days are exact zeros
+                wet = sample(r, k, 1, 40, 16, True)
+                return [Fraction(0) if r.random() < dry else w for w in wet]
+            o, h, f = mk(no), mk(nh), mk(nf)
+            thr = Fraction(r.choice([1, 8, 24]), 16); cth = Fraction(1, r.choice([100, 1000]))
+            d = D.ScaledDistributionMapping(distribution=rat, mapping_type="relative", pr_lower_threshold=float(thr), cdf_threshold=float(cth))
+            args = "ratls %s %s %s %s %s" % (C.q(thr), C.q(cth), C.ql(o), C.ql(h), C.ql(f))
+            try:
+                out = d.apply_on_window(fl(o), fl(h), fl(f))
+            except ValueError:
+                cc.add("(match sdm_relative %s with None => true | _ => false end)" % args); kind = "raises"
+            else:
+                if not np.all(np.isfinite(out)):
+                    res.count("k15-nonfinite-skipped"); continue
+                tol = C.tol_for(list(out)) * 1000
+                cc.add("(match sdm_relative %s with Some l__ => close_list l__ %s %s | None => false end)" % (args, C.ql(out), C.q(tol))); kind = "value"
+            m = dict(func="ScaledDistributionMapping._apply_on_window_relative_sdm", obs=[str(x) for x in o], cm_hist=[str(x) for x in h], cm_future=[str(x) for x in f], threshold=str(thr), impl=kind)
+            meta.append(m); res.case(("sdm-rel", kind, dry > 0), sample=m if len(res.samples) < 5 else None)
+    logging.getLogger("ibicus").disabled = False
+    fails, errors = cc.run()
+    res.components["K15 Model/SDM.v (hand model) vs ScaledDistributionMapping._apply_on_window_relative_sdm"] = dict(cases=len(cc.cases), disagreements=len(fails), errors=len(errors))
+    for e in errors[:3]:
+        res.broke("correspondence-error", "K15", e)
+    for i in fails[:5]:
+        res.broke("correspondence", "K15 " + meta[i]["func"], meta[i])
